@@ -394,8 +394,8 @@ def strat_obj(draw, tier="quick", kinds=("collection", "collection", "collection
             else:
                 cs = draw(st.integers(0, n - 1))
                 sp["chunk"] = [cs, draw(st.integers(cs + 1, n))]
-            if kind not in ("collection", "vc"):
-                # the chunk may be the reverse complement of its window
+            if kind != "vc" and not (kind == "collection" and o.get("variant_collections")):
+                # the chunk may be the reverse complement of its window (collections holding variants stay on forward chunks)
                 sp["chunk_strand"] = draw(st.sampled_from(["+", "+", "-"]))
     if explicit_bounds:
         # collection bounds given explicitly: inside the sequence / chunk window and containing every member
